@@ -124,6 +124,8 @@ type FnV struct {
 	specStack []*specFrame
 	floatDivs []string
 	shl map[string]int
+	assertAt map[ast.Stmt][]*AssertClause
+	i2fCache map[string]string
 	dm map[string][2]string
 	instName string
 }
@@ -380,6 +382,22 @@ func (fv *FnV) execBlock(st *State, list []ast.Stmt) *State {
 }
 
 func (fv *FnV) exec(st *State, s ast.Stmt) *State {
+	st = fv.exec1(st, s)
+	if acs, ok := fv.assertAt[s]; ok && !st.dead && len(fv.frames) == 1 {
+		for _, ac := range acs {
+			g := fv.evalClauseAt(st, ac.Cl, s.End())
+			lab := ac.Cl.Label
+			if lab == "" {
+				lab = ac.Var
+			}
+			fv.oblige(st, "assert["+lab+"]", "", g, s, ac.Cl)
+			st.assume(fv.name("as", g, "Bool"))
+		}
+	}
+	return st
+}
+
+func (fv *FnV) exec1(st *State, s ast.Stmt) *State {
 	if st.dead {
 		return st
 	}
@@ -857,6 +875,7 @@ func (fv *FnV) execRange(st *State, x *ast.RangeStmt) *State {
 				case *types.Array:
 					ev = Val{fmt.Sprintf("(select %s %s)", rv.T, i.T), u.Elem()}
 				}
+				fv.assumeRange(s, ev)
 				if obj := fv.prog.Info.Defs[id]; obj != nil {
 					s.vars[obj] = ev
 				} else {
